@@ -156,6 +156,7 @@ class Interp:
         self.hooks = {}            # callee-regex -> python callable (spec-level stubs)
         self.events = []           # models may record events (allocations, writes..)
         self.called = set()
+        self.stop_at = None        # (Function, bb): inductive mode, stop when the loop head is re-entered
 
     # ---------------------------------------------------------------- scalars
     def binop(self, op, a, b):
@@ -316,6 +317,8 @@ class Interp:
 
     # ---------------------------------------------------------------- memory
     def container_items(self, c):
+        if isinstance(c, ArrBuf):
+            return c
         if isinstance(c, VecV):
             return c.items
         if isinstance(c, Agg):
@@ -333,6 +336,8 @@ class Interp:
 
     def select(self, items, idx):
         """items[idx] with symbolic idx (caller guarantees bounds on the path)"""
+        if isinstance(items, ArrBuf):
+            return sc_from(z3.Select(items.arr, idx.z()), 'u8')
         if idx.concrete:
             if idx.e >= len(items):
                 raise PathEnd('infeasible', 'select out of range')
@@ -697,6 +702,8 @@ class Interp:
             return v.len
         if isinstance(v, Ref):
             c = self.load_ref(v)
+            if isinstance(c, ArrBuf):
+                return c.len
             return mk('usize', len(self.container_items(c)))
         raise Unsupported("PtrMetadata of %r" % (v,))
 
@@ -819,6 +826,8 @@ class Interp:
                 raise PathEnd('bound', 'step budget')
             n = fr.visits.get(bb, 0) + 1
             fr.visits[bb] = n
+            if self.stop_at is not None and n > 1 and bb == self.stop_at[1] and fr.fn is self.stop_at[0]:
+                raise LoopBack(fr)
             if n > self.loop_bound:
                 raise PathEnd('bound', 'loop bound %d at %s %s' % (self.loop_bound, fr.fn.name.rsplit('::', 1)[-1], bb))
             stmts, term = blocks[bb]
